@@ -1090,6 +1090,7 @@ func (a *Activation) alloc(ins *ssa.Alloc, st *State) Val {
 				ref := c.Define(ins.Name(), "Int", app("+", st.alloc, "1"))
 				st.alloc = c.Define("alloc", "Int", app("+", st.alloc, fmt.Sprint(sz)))
 				x.storeStruct(st, n, ref, c.zero(t))
+				x.zeroGhosts(st, n, ref)
 				return scalar(a.typ(ins.Type()), ref)
 			}
 		case *types.Array:
@@ -1101,6 +1102,28 @@ func (a *Activation) alloc(ins *ssa.Alloc, st *State) Val {
 	// local cell
 	st.locals[ins] = c.zero(t)
 	return Val{K: KLoc, T: a.typ(ins.Type()), Loc: &Loc{K: LLocal, Local: ins, T: t}}
+}
+
+// zeroGhosts: scalar ghost fields of a freshly allocated object start at their zero value (owner nil, position 0).
+func (x *Exec) zeroGhosts(st *State, n *types.Named, ref string) {
+	c := x.ctx
+	prefix := originKey(n) + "."
+	var names []string
+	for k := range x.eng.ghosts {
+		if strings.HasPrefix(k, prefix) {
+			names = append(names, k)
+		}
+	}
+	sort.Strings(names)
+	for _, k := range names {
+		g := x.eng.ghosts[k]
+		key, elem, isMap := x.ghostKey(n, g)
+		if isMap {
+			continue
+		}
+		es := c.sortOf(elem)
+		st.fields[key] = c.Define("H_"+key, arrSort("Int", es), store(x.fieldArr(st, key), ref, c.zero(elem).S))
+	}
 }
 
 func (a *Activation) load(p Val, st *State, rc string, pos token.Pos) Val {
@@ -1907,6 +1930,11 @@ func (x *Exec) havoc(st *State, pre *State, ws *WriteSet, fr *FrameSpec, only fu
 		st.fields[key] = nw
 		havocked[key] = true
 		x.closedness(nw, srt, x.heap.fieldType[key], st.alloc, comp)
+		{
+			// memory that is still unallocated afterwards cannot have been written
+			r := c.boundVar("r")
+			c.Assume(fmt.Sprintf("(forall ((%s Int)) (! (=> (> %s %s) (= (select %s %s) (select %s %s))) :pattern ((select %s %s))))", r, r, st.alloc, nw, r, old, r, nw, r))
+		}
 		if fr != nil && fr.has {
 			r := c.boundVar("r")
 			allowed := "false"
